@@ -23,7 +23,8 @@ ASSUMPTIONS = [
     'termination when the consumer disappears is argued from S4/S5 (sends fail fast, nothing else blocks) and the producer closing its end',
 ]
 MANIFEST = {'text': 'proof (all normal paths) of the structural conditions under which a full channel can only delay: try_send exists only in the helper, the helper re-sends the very value returned by '
-                    'Full with a blocking send, every pipeline outflow in the binary is that helper or a blocking send, each stage inspects send results, contains no other blocking call, and is linear in messages.'}
+                    'Full with a blocking send, every pipeline outflow in the binary is that helper or a blocking send, each stage inspects send results, contains no other blocking call, and is linear in messages.'
+                    ' Added: the lifecycle stage queues a received message without a send attempt only while a lifecycle is unconfirmed (so a vanished consumer is noticed).'}
 
 TRY_SEND = re.compile(r'::try_send$')
 BLOCKING = re.compile(r'^(std::thread::sleep|std::thread::park\w*|std::thread::JoinHandle::<T>::join|std::sync::Condvar::\w+|std::sync::Mutex::<T>::lock|std::sync::Barrier::wait|'
